@@ -106,13 +106,43 @@ def run(ctx, rep):
             cons = construct_of(f, f"range-check:{key}")
             loc = f"{f.path}:{st.lineno}"
             rq = root_names(q, fl) - {f.params[0] if f.params else ""}
-            two_sided = any((root_names(l, fl) - {f.params[0] if f.params else ""}) & rq for l, _ in lowers)
+            selfn_ = f.params[0] if f.params else ""
+
+            def complete_pairs():
+                """Quantities bounded on both sides: same expression text, or min(X)/max(X) over the same X."""
+                out = []
+                for l, _ in lowers:
+                    for u, _ in uppers:
+                        lt, ut = ast.unparse(l), ast.unparse(u)
+                        if lt == ut:
+                            out.append(l)
+                        elif isinstance(l, ast.Call) and isinstance(u, ast.Call) and isinstance(l.func, ast.Name) and isinstance(u.func, ast.Name) and l.func.id == "min" and u.func.id == "max" and [ast.unparse(a) for a in l.args] == [ast.unparse(a) for a in u.args]:
+                            out.append(l)
+                return out
+
+            pairs = complete_pairs()
+            two_sided = any((root_names(p_, fl) - {selfn_}) & rq for p_ in pairs)
             if two_sided:
                 rep.ok("C14.1", cons, "upper bound against the size and a lower bound against 0", loc)
             else:
                 rep.violation("C14.1", cons, f"`{ast.unparse(st.test)}` bounds `{key}` from above only: a negative value is accepted and silently addresses a different qubit (Python negative indexing / wrong arithmetic), e.g. `register r[2]; foo r[-1]`", loc, witness="register r[2]\nfoo r[-1]")
     if sites == 0:
         raise AnalysisError("C14.1: no range check found in core/register.py (anchor vanished)")
+    # the index check of resolve_qubit applies to aliases as well: it dominates every return
+    for f in ix.functions.values():
+        if f.module != REGMOD or f.name != "resolve_qubit" or len(f.params) < 2 or f.cls is None or not f.cls.endswith(".Register"):
+            continue
+        cfg = CFG(f.body)
+        idx = f.params[1]
+        guards = [st for st, lbl in raising_guards(f, cfg) if idx in names_in(st.test)]
+        rets = [st for st in iter_stmts(f.body) if isinstance(st, ast.Return)]
+        cons = construct_of(f, "range-check:every-return")
+        uncovered = [r for r in rets if not any(cfg.guarded_by_raise(cfg.node(r), cfg.node(g)) is not None for g in guards)]
+        if guards and not uncovered:
+            rep.ok("C14.1", cons, "the index check dominates every return (fundamental registers and aliases alike)", f.loc())
+        else:
+            where = f"{f.path}:{uncovered[0].lineno}" if uncovered else f.loc()
+            rep.violation("C14.1", cons, f"`{ast.unparse(uncovered[0]) if uncovered else 'return'}` can be reached without the index having been checked against this register's own size: an out-of-range index into a small or offset alias resolves to a different qubit of the source (`let i 2; map a r[0:2]; Px a[i]` runs on r[2])", where, witness="let i 2\nregister r[4]\nmap a r[0:2]\nPx a[i]")
 
     # ------------------------------------------------------------ C14.2
     rep.rule("C14.2", "duplicate, unknown-identifier, unknown-gate and arity checks dominate the constructions they protect", floor=6)
@@ -336,6 +366,84 @@ def run(ctx, rep):
         else:
             names = ", ".join(ix.classes[c].name for c in lacking)
             rep.violation("C14.4", cons, f"`{ast.unparse(ret.value)}` is applied to whatever the context yields, but {names} define no __getitem__: `let a 1; foo a[0]` raises TypeError instead of JaqalError", f"{fi.path}:{ret.lineno}", witness="let a 1\nregister r[1]\nfoo a[0]")
+
+    # kind guards at the other places where a looked-up / substituted / user-supplied value is used as a register or as an integer
+    KIND_GUARDS = [
+        # (function qualname, guarded name, what happens otherwise)
+        ("jaqalpaq.core.register.NamedQubit.__init__", "alias_from", "`map a q[0]` on a single-qubit alias raises AttributeError"),
+        ("jaqalpaq.core.register.NamedQubit.__init__", "alias_index", "`foo r[r]` raises TypeError"),
+        ("jaqalpaq.core.register.Register.__init__", "alias_from", "an alias of something that is not a register is accepted"),
+        ("jaqalpaq.core.register.Register.__init__", "size", "`let n 2.5; register r[n]` fails later inside numpy"),
+        ("jaqalpaq.core.register.Register.__init__", "alias_slice", "`map a r[0:r]` raises TypeError"),
+        ("jaqalpaq.core.algorithm.expand_macros.GateReplacer.visit_NamedQubit", "alias_from", "`macro m a { Px a[0] }; m r[0]` raises TypeError"),
+    ]
+    for q, var, why in KIND_GUARDS:
+        f = ix.functions.get(q)
+        cons_q = q[len("jaqalpaq."):]
+        if f is None:
+            rep.undecided("C14.4", f"{cons_q}:kind-guard:{var}", "function not found")
+            continue
+        cons = construct_of(f, f"kind-guard:{var}")
+        cfg = CFG(f.body)
+        flq = FuncFlow(ix, T, f)
+        ok = False
+        for st, lbl in raising_guards(f, cfg):
+            negated = [m.operand for m in ast.walk(st.test) if isinstance(m, ast.UnaryOp) and isinstance(m.op, ast.Not)]
+            for n in [x for neg in negated for x in ast.walk(neg)]:
+                if isinstance(n, ast.Call) and isinstance(n.func, ast.Name) and n.func.id == "isinstance" and n.args:
+                    tested = names_in(n.args[0])
+                    if var in tested:
+                        ok = True
+                    # a loop variable ranging over the parts of the guarded value (slice bounds)
+                    for nm in tested:
+                        for d in flq.defs.get(nm, []):
+                            if var in names_in(d):
+                                ok = True
+        if ok:
+            rep.ok("C14.4", cons, f"an isinstance test on `{var}` guards a JaqalError", f.loc())
+        else:
+            rep.violation("C14.4", cons, f"`{var}` is used without a kind test that raises JaqalError: {why}", f.loc())
+    # counts of loops and subcircuits are validated by the builder
+    for mname in ("build_loop", "build_subcircuit_block"):
+        fi = builder.methods.get(mname)
+        if fi is None:
+            continue
+        cons = construct_of(fi, "count-kind")
+        g = T.graph(weak=False)
+        reach = {fi.qualname}
+        for cs in T.callsites(fi):
+            for t in cs.targets:
+                if t.cls == BUILDER and t.name not in ("build",):
+                    reach.add(t.qualname)
+        guarded = False
+        for qn in reach:
+            fx = ix.functions[qn]
+            cf = CFG(fx.body)
+            for st, lbl in raising_guards(fx, cf):
+                txt = ast.unparse(st.test)
+                if "count" in txt and "isinstance" in txt:
+                    guarded = True
+        if guarded:
+            rep.ok("C14.4", cons, "the repetition count is kind-checked before the statement is built", fi.loc())
+        else:
+            rep.violation("C14.4", cons, "the repetition count is not checked to be an integer (or a let/parameter standing for one): `let n 2.5; loop n { .. }` is accepted and fails with TypeError when executed", fi.loc(), witness="let n 2.5\nregister r[1]\nloop n { prepare_all; measure_all }")
+
+    # ------------------------------------------------------------ C14.6
+    rep.rule("C14.6", "gate statements whose arguments were substituted are built through the definition's call (arity and kind validation), not constructed directly", floor=1)
+    GS = "jaqalpaq.core.gate.GateStatement"
+    for f in ix.functions.values():
+        if not f.module.startswith("jaqalpaq.core.algorithm"):
+            continue
+        for cs in T.callsites(f):
+            if cs.kind == "constructor" and cs.classes and cs.classes[0] == GS and isinstance(cs.node, ast.Call):
+                rep.violation("C14.6", construct_of(f, "direct-GateStatement"), f"`{ast.unparse(cs.node)[:70]}` builds a gate statement without going through the gate definition's call(): substituted or rewritten arguments are not checked against the parameters' kinds (`macro m a {{ Px a }}; m 1` is accepted)", f"{f.path}:{cs.node.lineno}", witness="macro m a { Px a }\nm 1")
+    n_calls = 0
+    for f in ix.functions.values():
+        if f.module.startswith("jaqalpaq.core.algorithm") and any(cs.kind == "method" and any(t.name == "__call__" and t.cls and t.cls.endswith("AbstractGate") for t in cs.targets) for cs in T.callsites(f)):
+            n_calls += 1
+            rep.ok("C14.6", construct_of(f, "via-definition-call"), "gate statements are produced by calling the gate definition", f.loc())
+    if n_calls == 0:
+        rep.undecided("C14.6", "core.algorithm:gate-construction", "no pass builds gate statements through a definition call")
 
     # ------------------------------------------------------------ C14.5
     rep.rule("C14.5", "precedence of gate sources: injected > later import > earlier import", floor=2)
